@@ -270,6 +270,27 @@ void run_codec(Bench<pol_cd>& B, const Query& q, std::ostream& os, const char* t
         os << "offsets " << mi << " slots"; for (auto s : pr[mi].slots) os << " " << s;
         os << " strides"; for (auto s : pr[mi].strides) os << " " << s; os << "\n";
     }
+    // (a'): the generator must print WHATEVER the installed array holds: every entry is replaced by a value wider than 16 / 32
+    // bits (strides of large registries reach them), the text is generated again and compared position by position
+    for (std::size_t mi = 0; mi < C.methods.size() && mi < pr.size(); ++mi) {
+        auto& m = C.methods[mi];
+        std::size_t nss = 2 * m.arity() - 1;
+        std::vector<std::size_t> saved(m.info->slots_strides_ptr, m.info->slots_strides_ptr + nss), wide(nss);
+        for (std::size_t j = 0; j < nss; ++j)
+            wide[j] = saved[j] + ((std::size_t)(j + 1) << 16) + (j % 2 ? ((std::size_t)(mi + 1) << 33) : 0) + (j % 3 == 2 ? ((std::size_t)1 << 47) : 0);
+        std::copy(wide.begin(), wide.end(), m.info->slots_strides_ptr);
+        auto pw = printed_offsets(r);
+        std::copy(saved.begin(), saved.end(), m.info->slots_strides_ptr);
+        std::vector<std::size_t> got(pw[mi].slots); got.insert(got.end(), pw[mi].strides.begin(), pw[mi].strides.end());
+        os << "wide " << mi;
+        if (!pw[mi].found || got.size() != nss) os << " MISMATCH printed " << got.size() << " numbers for " << nss << " installed";
+        else {
+            bool ok = true;
+            for (std::size_t j = 0; j < nss; ++j) if (got[j] != wide[j]) { os << " MISMATCH pos " << j << " installed " << wide[j] << " printed " << got[j]; ok = false; break; }
+            if (ok) os << " ok " << nss;
+        }
+        os << "\n";
+    }
     // update's image, canonical
     std::size_t ntab = 0, nvt = 0;
     for (auto& m : C.methods) if (m.arity() > 1) ntab += m.dispatch_table.size();
